@@ -259,10 +259,17 @@ class Ctl:
                 if len(names) == 1:
                     return self.threads[names[0]]
                 curname = cur.name if (cur is not None and cur.state == READY) else None
+                if where[0] == 'sleep0' and curname is not None:
+                    # time.sleep(0) gives up the time slice: somebody else runs (fairness for spin-waits)
+                    names.remove(curname)
+                    curname = None
+                    if len(names) == 1:
+                        return self.threads[names[0]]
                 c = self.strategy.choose(names, curname, where)
                 self.decisions.append([names, c, curname])
                 return self.threads[c]
-            pend = [t for t in self.threads.values() if t.state in (IDLE, BLOCKED)]
+            pend = [t for t in self.threads.values() if t.state in (IDLE, BLOCKED)
+                    and not isinstance(t.on, CExecutor)]      # idle pool workers wait for work for ever
             if not pend:
                 self._end('ok')
                 return None
@@ -568,13 +575,16 @@ class CExecutor:
             f, fn, args, kwargs = self.q.popleft()
             if not f.set_running_or_notify_cancel():
                 continue
+            ctl.point('pool-run')
             try:
                 r = fn(*args, **kwargs)
             except BaseException as e:
                 if isinstance(e, Hang):
                     raise
+                ctl.point('pool-result')    # the worker can be preempted before it completes the future
                 f.set_exception(e)
             else:
+                ctl.point('pool-result')
                 f.set_result(r)
             del f, fn, args, kwargs
 
